@@ -35,8 +35,8 @@ theorem pen_delta_correct_encodeCells (legacy : Bool) (p n : Style) (hn : n.ulSt
     apply (shown p) (encodeDelta legacy p n) = shown n := encodeDelta_correct legacy p n hn
 
 /-- **pen_delta_correct (StyledString.Encode).** -/
-theorem pen_delta_correct_ssEncode (p n : Style) (hn : n.ulStyle ≤ 5) :
-    apply (shown p) (ssDelta p n) = shown n := ssDelta_correct p n hn
+theorem pen_delta_correct_ssEncode (legacy : Bool) (p n : Style) (hn : n.ulStyle ≤ 5) :
+    apply (shown p) (ssDelta legacy p n) = shown n := ssDelta_correct legacy p n hn
 
 /-- **pen_delta_correct (render).** For every capability setting: without `rgb` the terminal shows the
     palette fallback of direct colours, without `styledUnderlines` no underline colour and a single
@@ -142,9 +142,9 @@ example : Style.wf ⟨indexColor 200, rgbColor 1 2 3, indexColor 7, 3, 254⟩ :=
 
 theorem ssCfg_covers : Covers ssCfg := covers_iff _ (by decide)
 
-/-- **producers_range (StyledString.Encode)**: colon forms only. -/
-theorem producers_range_ssEncode (p n : Style) (hn : n.ulStyle ≤ 5) :
-    ∀ x ∈ ssDelta p n, emittable x = true := ssDelta_range p n hn
+/-- **producers_range (StyledString.Encode)**: colon forms only, with or without the legacy quirk. -/
+theorem producers_range_ssEncode (legacy : Bool) (p n : Style) (hn : n.ulStyle ≤ 5) :
+    ∀ x ∈ ssDelta legacy p n, emittable x = true := ssDelta_range legacy p n hn
 
 /-- **producers_range (render)**, for every capability setting. -/
 theorem producers_range_render (rgb su legacy : Bool) (p n : Style) (hn : n.ulStyle ≤ 5) :
@@ -178,10 +178,12 @@ def producers_consumers_agree_full : Prop :=
   ∀ (s : Style), s.wf → ∀ q, emittableLegacy q = true →
     ∃ s', parseSGR s q = .ok s' ∧ emuSgr s q = .ok s' ∧ ssSeq {} s q = .ok s' ∧ shown s' = Spec.sgr (shown s) q
 
-/-- **roundtrip_cells (StyledString.Encode / NewStyledString).** Holds since the `fix:` for F48. -/
-theorem roundtrip_ss {γ : Type} (cs : List (Cell γ)) (hcs : ∀ c ∈ cs, c.st.wf) :
-    ssParse {} (ssEncode cs) = .ok cs :=
-  ss_roundtrip_generic (ssSeq {}) ssDelta (fun s n hs hn => ss_delta_roundtrip ssCfg_covers s n hs hn)
+/-- **roundtrip_cells (StyledString.Encode / NewStyledString).** Holds since the `fix:` for F48, and in every
+    configuration: `Encode` writes private constant formats (`Gen.SgrCases.ssEncode…Mutable = false`), so the legacy
+    quirk cannot turn its output into forms `NewStyledString` does not read (cf. F118). -/
+theorem roundtrip_ss {γ : Type} (legacy : Bool) (cs : List (Cell γ)) (hcs : ∀ c ∈ cs, c.st.wf) :
+    ssParse {} (ssEncode legacy cs) = .ok cs :=
+  ss_roundtrip_generic (ssSeq {}) (ssDelta legacy) (fun s n hs hn => ss_delta_roundtrip ssCfg_covers legacy s n hs hn)
     cs {} wf_default hcs
 
 /-- **ends_reset (EncodeCells).** After the whole encoded string the parser's style is the zero style. -/
@@ -196,9 +198,9 @@ theorem ends_reset_cells {γ : Type} (legacy : Bool) (cs : List (Cell γ)) (hcs 
 
 /-- **ends_reset (StyledString.Encode)**: the style `NewStyledString` would hold after the last
     sequence (it skips a sequence with nothing after it, which is unobservable) is the zero style. -/
-theorem ends_reset_ss {γ : Type} (cs : List (Cell γ)) (hcs : ∀ c ∈ cs, c.st.wf) :
-    penAfter (ssSeq {}) {} (ssEncode cs) = .ok {} :=
-  ends_reset_generic (ssSeq {}) ssDelta (fun s n hs hn => ss_delta_roundtrip ssCfg_covers s n hs hn)
+theorem ends_reset_ss {γ : Type} (legacy : Bool) (cs : List (Cell γ)) (hcs : ∀ c ∈ cs, c.st.wf) :
+    penAfter (ssSeq {}) {} (ssEncode legacy cs) = .ok {} :=
+  ends_reset_generic (ssSeq {}) (ssDelta legacy) (fun s n hs hn => ss_delta_roundtrip ssCfg_covers legacy s n hs hn)
     (fun _ => rfl) cs {} wf_default hcs
 
 /-- **encoded_shows / ends_reset at the terminal.** A terminal interpreting the encoded string with
@@ -209,9 +211,9 @@ theorem encoded_shows_cells {γ : Type} (legacy : Bool) (cs : List (Cell γ)) (h
   have := encoded_shows shown (encodeDelta legacy) (encodeDelta_correct legacy) shown_default cs {} hcs
   rwa [shown_default] at this
 
-theorem encoded_shows_ss {γ : Type} (cs : List (Cell γ)) (hcs : ∀ c ∈ cs, c.st.ulStyle ≤ 5) :
-    specRun TStyle.reset (ssEncode cs) = (cs.map (fun c => (c.g, shown c.st)), TStyle.reset) := by
-  have := encoded_shows shown ssDelta ssDelta_correct shown_default cs {} hcs
+theorem encoded_shows_ss {γ : Type} (legacy : Bool) (cs : List (Cell γ)) (hcs : ∀ c ∈ cs, c.st.ulStyle ≤ 5) :
+    specRun TStyle.reset (ssEncode legacy cs) = (cs.map (fun c => (c.g, shown c.st)), TStyle.reset) := by
+  have := encoded_shows shown (ssDelta legacy) (ssDelta_correct legacy) shown_default cs {} hcs
   rwa [shown_default] at this
 
 theorem render_frame_shows {γ : Type} (rgb su legacy : Bool) (cs : List (Cell γ)) (hcs : ∀ c ∈ cs, c.st.ulStyle ≤ 5) :
@@ -241,6 +243,16 @@ theorem sgr_writers :
     Sequences.mutableStrings = ["fgIndexSet", "fgRGBSet", "bgIndexSet", "bgRGBSet"] ∧
     SgrCases.quirkRewrites = [("fgIndexSet", ":", ";"), ("fgRGBSet", ":", ";"), ("bgIndexSet", ":", ";"),
       ("bgRGBSet", ":", ";")] := by decide
+
+/-- `StyledString.Encode` writes its extended colours with formats the legacy quirk cannot rewrite (so its
+    own output stays readable by `NewStyledString` in every configuration); `EncodeCells` and `render` use the
+    mutable variables. -/
+theorem encode_formats_mutability :
+    (SgrCases.ssEncodeFgIndexMutable || SgrCases.ssEncodeFgRGBMutable || SgrCases.ssEncodeBgIndexMutable ||
+      SgrCases.ssEncodeBgRGBMutable) = false ∧
+    (SgrCases.encodeCellsFgIndexMutable && SgrCases.encodeCellsFgRGBMutable && SgrCases.encodeCellsBgIndexMutable &&
+      SgrCases.encodeCellsBgRGBMutable && SgrCases.renderFgIndexMutable && SgrCases.renderFgRGBMutable &&
+      SgrCases.renderBgIndexMutable && SgrCases.renderBgRGBMutable) = true := by decide
 
 /-- The two `[][]int` consumers handle the same labels, arities and `4:n` sub-labels (as sets; since the
     F35 fix). -/
